@@ -34,6 +34,9 @@ TEXT = {
     "C06": core("6/C06", "C06_Exact and NoOrphans: the countdown armed equals the LIFETIME answered (requested if < 3600 else default), Refresh(0) deletes at once, nothing survives its allocation; probed one second before and at every expiry."),
     "C07": core("6/C07", "C07_FullRestart: only successful CreatePermission/ChannelBind raise a countdown and then to the full timeout (the permission timeout on both paths); probed one tick before and at expiry for both orders of the two timeouts."),
     "C08": core("6/C08", "Invariants C08_Bijection, C08_Range and action property C08_Conflict400 over valid and invalid numbers and peers differing only in port."),
+    "C10": dict(engine="engine-A-walk", design_ref="6/C10", technique="TLA+ spec of the packetiser (Framer.tla) + TLC + replay of every (stream, segmentation) on proto.STUNConn and TCPAllocation.BindConnection",
+                level_note="Trusted: TLC, Go, the scripted net.Conn of the harness. Bounded by the stream catalogue and the cut alphabet listed in the evidence assumptions.",
+                level_text="Invariants C10_Prefix / C10_Prompt / C10_Progress are model-checked over all segmentations of the catalogue; every edge (one read of k bytes) is replayed on the real reader: frames must come out whole, in order, byte-identical, in the step their last byte arrives, junk must yield an error, zero-length successes are a violation."),
     "C17": dict(engine="engine-A-walk", design_ref="6/C17", technique="TLA+ decision table (LtCred.tla) + TLC + replay of every case on the real generators/handlers and through a real server",
                 level_note="Trusted: TLC, Go, synctest's clock; MAC/Key uninterpreted. Bounded: 2 handler kinds x 3 user ids x 5 durations x mint at 0/1 s after handler construction x probes at every second of a 5 s window x 13 mutation classes.",
                 level_text="LtCred.tla states C17_Iff (authenticates iff untouched pair and now <= expiry); TLC checks it over the whole table and every generated case is executed on the real code twice (handler call; signed Allocate through a real server)."),
